@@ -817,6 +817,7 @@ class Gen:
                     for s2 in scope + [src]:
                         s2.force_qualify = True
                     q.using_merged = True
+                    q.merged_sources = getattr(q, "merged_sources", set()) | {s2.alias for s2 in scope + [src]}
                 elif kind != "CROSS JOIN":
                     lk = [c for s in scope for c in s.cols if c[0] == "k"]
                     rk = [c for c in src.cols if c[0] == "k"]
@@ -860,6 +861,7 @@ class Gen:
                     for s in scope + [src]:
                         s.force_qualify = True
                     q.using_merged = True
+                    q.merged_sources = getattr(q, "merged_sources", set()) | {s2.alias for s2 in scope + [src]}
                 scope.append(src)
         q.scope = scope
         # WHERE
@@ -909,6 +911,17 @@ class Gen:
                     q.projs.append((("star", s.alias), None))
                     for c in s.cols:
                         q.out.append((c[0], c[1], c[2]))
+            if getattr(q, "using_merged", False) and f.get("star_beside_using") and f["stars"] and not as_source and self.chance(f["star_beside_using"]):
+                # a qualified star over a source that is *not* part of the USING / NATURAL pair (but may share the merged
+                # column's name): it expands to that source's own columns
+                outside = [s2 for s2 in scope if s2.alias not in getattr(q, "merged_sources", set())
+                           and (f["stars"] != "base-only" or s2.kind == "table")]
+                if outside:
+                    s2 = self.pick(outside)
+                    q.projs.append((("star", s2.alias), None))
+                    for c in s2.cols:
+                        q.out.append((c[0], c[1], c[2]))
+                    self.tags.add("star:qualified-beside-using")
             n_extra = 0 if (q.projs and self.chance(0.5)) else nproj
             for _ in range(n_extra):
                 ty = self.pick([INT, INT, TEXT] if f["text"] else [INT])
